@@ -106,6 +106,7 @@ PROPS = {
                  {"pkg": "motion", "test": "TestVerif_C04Window", "shards": (8, 16), "timeout": (300, 1800), "require": ["window_runs", "motion_frames_outside_window", "frames_at_exact_boundary", "windows_spanning_midnight", "recordings"]},
                  {"pkg": "recorder-main", "test": "TestVerif_C04Pipe", "shards": (6, 6), "timeout": (300, 900), "require": ["pipeline_gate_runs", "pipeline_motion_files", "runs_with_disk_check_disabled"]},
                  {"pkg": "recorder-main", "test": "TestVerif_C04Bursts", "shards": (8, 16), "timeout": (300, 1200), "require": ["burst_connections", "bursts_recorded"]},
+                 {"pkg": "recorder-main", "test": "TestVerif_C04Relink", "shards": (2, 2), "timeout": (300, 600)},
                  {"pkg": "recorder-main", "test": "TestVerif_C04PipeRetry", "shards": (8, 16), "timeout": (300, 900), "require": ["pipeline_retry_runs"]},
                  {"pkg": "throttle", "test": "TestVerif_ThrottleComposition", "shards": (16, 16), "timeout": (300, 2400), "require": ["composition_runs", "base_starts_checked", "mid_trigger_restarts", "base_start_failures", "runs_with_disk_low_windows"]}],
     },
@@ -167,6 +168,7 @@ PROPS = {
         "level_note": "edge-pixels = 0 makes the border variant vacuous (only the sub-threshold variant runs there).",
         "technique": "paired-execution comparator",
         "jobs": [{"pkg": "motion", "test": "TestVerif_C08", "shards": (16, 16), "timeout": (300, 2400), "require": ["pairs_border", "pairs_sub-threshold", "motion_frames", "recordings", "pixels_varied", "blinking_blob_pairs"]},
+                 {"pkg": "recorder-main", "test": "TestVerif_ConfigReread", "shards": (6, 12), "timeout": (300, 1200), "require": ["connections_after_a_thermal_motion_edit"]},
                  {"pkg": "recorder-main", "test": "TestVerif_C14Pipe", "race": True, "shards": (16, 16), "timeout": (600, 3000), "require": ["connections", "frames_verified_in_storage", "motion_files"]}],
     },
     "C09": {
@@ -188,7 +190,7 @@ PROPS = {
         "title": "Only complete recordings ever bear the .cptv name; crashes leave no debris",
         "level": "fault_enumeration",
         "rule": "Scenarios through the real handleConn + CPTVFileRecorder in a child process (test binary re-executed): S1 one motion recording, S2 two back-to-back, S3 throttle cut, S4 test recording overlapping a motion recording, "
-                "S5 constant recorder on, S6 connection dropped in mid-frame (Stop path), S7 'clear' in mid-recording, S8 test recording and motion recording starting on the same frame, S9 throttle cut and restart within one trigger, S10 every start failing while the header is written, S11 the temporary names of the next 100 ms already taken when the motion recording starts S12 output directory and constant-recordings folder reached through symbolic links S13 an upload backlog of 3000 finished recordings in both directories S14 a relative output-dir with a working directory other than the configuration directory, S15 an output directory whose name contains pattern characters ('[', ']', '*', '?') with the constant recorder on, S16 the third camera connection of one daemon run with the constant recorder on (quick: S1,S3,S4,S5,S6,S8,S10,S11,S12,S13,S14,S15,S16). "
+                "S5 constant recorder on, S6 connection dropped in mid-frame (Stop path), S7 'clear' in mid-recording, S8 test recording and motion recording starting on the same frame, S9 throttle cut and restart within one trigger, S10 every start failing while the header is written, S11 the temporary names of the next 100 ms already taken when the motion recording starts S12 output directory and constant-recordings folder reached through symbolic links S13 an upload backlog of 3000 finished recordings in both directories S14 a relative output-dir with a working directory other than the configuration directory, S15 an output directory whose name contains pattern characters ('[', ']', '*', '?') with the constant recorder on, S16 the third camera connection of one daemon run with the constant recorder on, S17 every start failing at the header with the constant recorder on and rejected frames in the stream (quick: S1,S3,S4,S5,S6,S8,S10-S17). "
                 "An uncrashed run counts the hook hits H - the file recorder's own hooks (after create, after header, before/after each frame write, before Close, between Close and rename, after rename, abort path) and hook calls inserted by build overlay into a copy of go-cptv's file writer "
                 "(between its three file creations; in Close after flush, header patch, gzip copy, gzip flush/close, buffered flush, before/after closing and deleting the scratch file); then for EVERY n in 0..H the child SIGKILLs itself at hit n. "
                 "Oracles: I1 - every *.cptv decodes header to EOF with the stock reader, checked synchronously at every hook inside the child, by a free-running observer goroutine, and by the parent on the directory as found; "
@@ -356,7 +358,7 @@ PROPS = {
         "level_text": "Reference-model monitor on the real FrameLoop: every transition out of every reachable (implementation x model) state for capacities 1..8 is executed and judged, plus random long sequences up to capacity 64. Exploration is the right level: the ring is small and deterministic, so the BFS part is complete for those capacities while larger ones are sampled.",
         "level_note": "Trusts RefRing as the specification and that product states are captured by (currentIndex, bufferFull, oldest, min(n,N), mark age).",
         "technique": "reference-model runtime monitor (BFS + random operation sequences)",
-        "jobs": [{"pkg": "motion", "test": "TestVerif_C19", "shards": (4, 16), "timeout": (120, 900), "require": ["twin_ring_runs", "bfs_transitions", "random_ops", "sparse_observation_pairs", "random_observations", "concurrent_recent_copies"]}],
+        "jobs": [{"pkg": "motion", "test": "TestVerif_C19", "shards": (4, 16), "timeout": (900, 2400), "require": ["twin_ring_runs", "bfs_transitions", "random_ops", "sparse_observation_pairs", "random_observations", "concurrent_recent_copies"]}],
     },
     "C20": {
         "title": "Log limiter drops only exact repeats inside the interval, nothing else",
@@ -382,7 +384,7 @@ _PENDING = "check under construction in this session; not claimed until its moni
 # products that only overflow on the production word size are observed too.
 ARCH32 = {
     "C01": ["TestVerif_FSM", "TestVerif_C01Pipe", "TestVerif_ThrottleComposition"], "C02": ["TestVerif_FSM", "TestVerif_C01Pipe", "TestVerif_ThrottleComposition"], "C03": ["TestVerif_FSM"],
-    "C04": ["TestVerif_FSM", "TestVerif_C04Window", "TestVerif_C04Pipe", "TestVerif_C04Bursts"],
+    "C04": ["TestVerif_FSM", "TestVerif_C04Window", "TestVerif_C04Pipe", "TestVerif_C04Bursts", "TestVerif_C04Relink"],
     "C05": ["TestVerif_Throttle", "TestVerif_C05ClockStep", "TestVerif_ThrottleComposition"],
     "C06": ["TestVerif_Throttle", "TestVerif_ThrottleComposition", "TestVerif_C06Production"],
     "C07": ["TestVerif_C07", "TestVerif_C07Config", "TestVerif_ConfigReread"], "C08": ["TestVerif_C08"], "C09": ["TestVerif_C09"],
